@@ -9,6 +9,15 @@
 
 use vkit::Ctx;
 
+mod c01;
+mod c02;
+mod c03;
+mod c04;
+mod c06;
+mod c07;
+mod c09;
+mod common;
+mod dbg;
 mod c12;
 mod c16;
 mod selftest;
@@ -66,6 +75,14 @@ fn main() {
 
     match prop.as_str() {
         "selftest" => selftest::run(&mut ctx),
+        "dbg" => dbg::run(&mut ctx),
+        "C01" => c01::run(&mut ctx),
+        "C02" => c02::run(&mut ctx),
+        "C03" => c03::run(&mut ctx),
+        "C07" => c07::run(&mut ctx),
+        "C09" => c09::run(&mut ctx),
+        "C06" => c06::run(&mut ctx),
+        "C04" => c04::run(&mut ctx),
         "C12" => c12::run(&mut ctx),
         "C16" => c16::run(&mut ctx),
         _ => {
